@@ -42,6 +42,9 @@ fn fusion_leaves(thorough: bool) -> Vec<E> {
         E::Num(1e5),
         E::Num(1e100),
         E::Num(0.0),
+        E::Num(f64::NAN),
+        E::Num(f64::INFINITY),
+        E::Num(f64::NEG_INFINITY),
         id("a"),
         id("_"),
         id("e1"),
@@ -49,6 +52,7 @@ fn fusion_leaves(thorough: bool) -> Vec<E> {
         E::Str(b"s".to_vec()),
         E::Str(b"".to_vec()),
         E::Str(long_string()),
+        E::Str(b"a long text with a carriage return in it,\r\nlong enough to be written in brackets, and then some more".to_vec()),
         E::Table(vec![]),
         E::Table(vec![Item::Pos(E::Num(1.0))]),
         E::Func(vec![], false, vec![]),
